@@ -379,11 +379,48 @@ def parse_opt_pairs(v):
     return json.loads(body.replace(";", ",").replace("(", "[").replace(")", "]"))
 
 
+# ---- anchored pins: the comparisons with which the monitor and the OnchainTxHandler prune their awaiting-threshold
+# tables when blocks go away; Model/ChainView.v's BD / BB / TU use exactly these (Props/C06.v: C06_reorg_source_pins)
+MON = "lightning/src/chain/channelmonitor.rs"
+OTX = "lightning/src/chain/onchaintx.rs"
+PINS = [
+    ("monitor_blocks_disconnected_retain", MON,
+     r"//- maturing spendable output has transaction paying us has been disconnected\s*self\.onchain_events_awaiting_threshold_conf\.retain\(\|ref entry\| (.*?)\);"),
+    ("monitor_best_block_reorg_retain", MON,
+     r"\"Best block re-orged, replaced with new block \{\} at height \{\}\", block_hash, height\);\s*self\.onchain_events_awaiting_threshold_conf\.retain\(\|ref entry\| (.*?)\);"),
+    ("monitor_transaction_unconfirmed_drop", MON,
+     r"self\.onchain_events_awaiting_threshold_conf\.retain\(\|ref entry\| if (entry\.height \S+ removed_height) \{"),
+    ("onchaintx_blocks_disconnected_drop", OTX,
+     r"for entry in onchain_events_awaiting_threshold_conf \{\s*if (entry\.height \S+ new_best_height) \{"),
+]
+
+
+def gen_pins(ctx):
+    import re
+    lines = ["(* GENERATED by tools/props/C06.py from the rust-lightning sources on every run. Do not edit. *)",
+             "From Coq Require Import String.", ""]
+    meta = []
+    srcs = {}
+    for name, rel, rx in PINS:
+        if rel not in srcs:
+            srcs[rel] = open(os.path.join(core.REPO, rel)).read()
+        ms = re.findall(rx, srcs[rel], re.S)
+        if len(ms) != 1:
+            raise RuntimeError("anchored pin %s: expected exactly one match in %s, found %d" % (name, rel, len(ms)))
+        text = re.sub(r"\s+", " ", ms[0]).strip()
+        lines.append('Definition %s : string := "%s"%%string.' % (name, text.replace('"', '""')))
+        meta.append({"pin": name, "source": rel, "text": text})
+    core.write_if_changed(os.path.join(core.COQ, "Gen", "C06Pins.v"), "\n".join(lines) + "\n")
+    return meta
+
+
 def generate(ctx):
     from vlib import gen
+    pins = gen_pins(ctx)
     metas, errors = gen.regen(ctx, ["Package", "Consts"])
     if errors:
         raise RuntimeError("rs2v refused: %s" % errors)
+    ctx.c06_pins = pins
     return metas
 
 
